@@ -197,7 +197,7 @@ def r12_3(ctx):
     tfl = [b for b in lib.bodies if b.name == "flush" and b.raw.get("vis") == "Public" and "Translator" in b.raw.get("impl_self_ty", "")]
     ctx.need(len(tfl) == 1, "public Translator::flush not found")
     tfl = tfl[0]
-    dfl = common.method_body(lib, disp, "flush")
+    dfl = common.method_body(lib, disp, common.output_trait(ctx.facts)["flush"])
     ctx.need(dfl, "dispatcher flush not found")
     ok, det = _returns_call(tfl, lambda t: (fn_of(t) or {}).get("resolved") == dfl.id or (fn_of(t) or {}).get("def") == dfl.id)
     ctx.ob("translator", ok, site(tfl), det)
